@@ -38,7 +38,7 @@ TraceInit ==
     /\ Init
     /\ l = 1 /\ viol = <<>> /\ run = 0 /\ maxdur = 0 /\ confirmed = 0 /\ offscript = 0 /\ ntoks = 0 /\ nruns = 0
 
-V(rule) == [l |-> l, run |-> run, rule |-> rule]
+V(rule) == [l |-> l, rule |-> rule]      \* every line carries its run id
 \* append V(name) for every name whose condition is TRUE
 RECURSIVE Collect(_, _)
 Collect(acc, checks) == IF checks = <<>> THEN acc
@@ -70,7 +70,7 @@ TraceTok ==
            /\ lastTok' = IF r.tok > lastTok THEN r.tok ELSE lastTok
            /\ maxdur' = IF r.r > maxdur THEN r.r ELSE maxdur
            /\ viol' = Collect(viol, <<
-                 <<"not-exactly-one-outcome", ~decided>>,
+                 <<"shot-and-discarded", r.d = "both">>,     \* "none" (no outcome) is judged at the end line
                  <<"fired-early", decided /\ ~RecNoEarly(r)>>,
                  <<"fired-two-seconds-late", disc /\ decided /\ ~RecMustDiscard(r, MAX, MarginUs)>>,
                  <<"discarded-inside-window", disc /\ decided /\ ~RecMustFire(r, MAX, MarginUs)>>,
@@ -85,9 +85,11 @@ TraceTok ==
 TraceEnd ==
     /\ Ev.ev = "end"
     /\ viol' = Collect(viol, <<
+          \* machinery, not verdicts (the check exits 2): engine error; a run with discard off that hit the 60 s limit
           <<"run-error", Ev.err # "" /\ ~Ev.timeout>>,
+          <<"run-timeout-off", ~disc /\ Ev.timeout>>,
           <<"token-lost", ~Ev.timeout /\ ~(nfired + ndisc = Ev.drawn /\ k = Ev.drawn /\ Ev.left = 0 /\ Ev.orphans = 0)>>,
-          <<"not-all-fired-while-off", ~disc /\ (Ev.timeout \/ nfired # Ev.drawn)>>,
+          <<"not-all-fired-while-off", ~disc /\ ~Ev.timeout /\ nfired # Ev.drawn>>,
           <<"run-not-bounded", disc /\ (Ev.timeout \/ Ev.end > Ev.last + MAX + maxdur + SlackUs)>> >>)
     /\ UNCHANGED <<run, disc, k, nfired, ndisc, lastTok, last, maxdur, confirmed, offscript, ntoks, nruns>>
 
